@@ -12,94 +12,7 @@ verus! {
 //@type vls-core/src/util/velocity.rs :: VelocityControlIntervalType
 //@type vls-core/src/util/velocity.rs :: VelocityControlSpec
 
-// ---------------------------------------------------------------- spec side
-// mathematical sum of a bucket vector
-pub open spec fn vsum(s: Seq<u64>) -> nat
-    decreases s.len()
-{
-    if s.len() == 0 { 0 } else { vsum(s.drop_last()) + s.last() as nat }
-}
-
-// saturating sum, as computed by `velocity()`
-pub open spec fn sat(n: nat) -> u64 { if n > u64::MAX as nat { u64::MAX } else { n as u64 } }
-
-pub open spec fn zeros(n: nat) -> Seq<u64> { Seq::new(n, |i: int| 0u64) }
-
-// representation invariant
-pub open spec fn vc_wf(vc: VelocityControl) -> bool {
-    vc.bucket_interval > 0 && vc.buckets@.len() > 0
-}
-
-// abstract value of a control
-pub struct VcAbs { pub start_sec: u64, pub bucket_interval: u32, pub buckets: Seq<u64>, pub limit: u64 }
-pub open spec fn vc_abs(vc: VelocityControl) -> VcAbs {
-    VcAbs { start_sec: vc.start_sec, bucket_interval: vc.bucket_interval, buckets: vc.buckets@, limit: vc.limit }
-}
-pub open spec fn abs_wf(vc: VcAbs) -> bool { vc.bucket_interval > 0 && vc.buckets.len() > 0 }
-
-// The buckets after time advanced to `t`: `nshift` empty buckets are pushed in front,
-// the oldest `nshift` fall out of the window.
-pub open spec fn vc_nshift(vc: VcAbs, t: u64) -> nat {
-    let d = ((t - vc.start_sec) / vc.bucket_interval as int) as nat;
-    if d < vc.buckets.len() { d } else { vc.buckets.len() }
-}
-pub open spec fn vc_shifted(vc: VcAbs, t: u64) -> Seq<u64> {
-    let n = vc_nshift(vc, t);
-    zeros(n) + vc.buckets.take(vc.buckets.len() - n)
-}
-// acceptance rule taken from the property: the amount counted in the tracked interval plus
-// the new amount must not exceed the limit
-pub open spec fn vc_accepts(vc: VcAbs, t: u64, amt: u64) -> bool {
-    sat(sat(vsum(vc_shifted(vc, t))) as nat + amt as nat) <= vc.limit
-}
-pub open spec fn vc_step(vc: VcAbs, t: u64, amt: u64) -> VcAbs {
-    let sh = vc_shifted(vc, t);
-    VcAbs {
-        start_sec: (t - (t % vc.bucket_interval as u64)) as u64,
-        bucket_interval: vc.bucket_interval,
-        buckets: (if vc_accepts(vc, t, amt) { sh.update(0, sat(sh[0] as nat + amt as nat)) } else { sh }),
-        limit: vc.limit,
-    }
-}
-
-pub open spec fn spec_triple(spec: VelocityControlSpec) -> (u64, u32, usize) {
-    match spec.interval_type {
-        VelocityControlIntervalType::Hourly => (spec.limit_msat, 300u32, 12usize),
-        VelocityControlIntervalType::Daily => (spec.limit_msat, 3600u32, 24usize),
-        VelocityControlIntervalType::Unlimited => (u64::MAX, 300u32, 12usize),
-    }
-}
-pub open spec fn spec_matches_spec(vc: VelocityControl, spec: VelocityControlSpec) -> bool {
-    let t = spec_triple(spec);
-    vc.limit == t.0 && vc.bucket_interval == t.1 && vc.buckets@.len() == t.2
-}
-
-pub proof fn lemma_vsum_push(s: Seq<u64>, x: u64)
-    ensures vsum(s.push(x)) == vsum(s) + x as nat
-{
-    assert(s.push(x).drop_last() == s);
-}
-pub proof fn lemma_vsum_zeros(n: nat)
-    ensures vsum(zeros(n)) == 0
-    decreases n
-{
-    if n > 0 {
-        assert(zeros(n).drop_last() == zeros((n - 1) as nat));
-        lemma_vsum_zeros((n - 1) as nat);
-    }
-}
-pub proof fn lemma_vsum_update(s: Seq<u64>, i: int, x: u64)
-    requires 0 <= i < s.len()
-    ensures vsum(s.update(i, x)) == vsum(s) - s[i] as nat + x as nat
-    decreases s.len()
-{
-    if i == s.len() - 1 {
-        assert(s.update(i, x).drop_last() == s.drop_last());
-    } else {
-        assert(s.update(i, x).drop_last() == s.drop_last().update(i, x));
-        lemma_vsum_update(s.drop_last(), i, x);
-    }
-}
+//@include frag/velocity_spec.rs
 
 // ---------------------------------------------------------------- code side
 impl VelocityControl {
@@ -131,13 +44,7 @@ impl VelocityControl {
 //@end
 
 //@fn vls-core/src/util/velocity.rs :: impl VelocityControl :: update_spec props=C12
-    ensures
-        // a control whose spec still matches keeps everything it has counted      [restart clause]
-        spec_matches_spec(*old(self), *spec) ==> *final(self) == *old(self),       //[C12.update.keeps]
-        !spec_matches_spec(*old(self), *spec) ==> (
-            spec_matches_spec(*final(self), *spec) && final(self).start_sec == 0
-            && final(self).buckets@ == zeros(spec_triple(*spec).2 as nat)),        //[C12.update.reset]
-        vc_wf(*old(self)) ==> vc_wf(*final(self)),
+//@include frag/c/vc_update_spec.rs
 //@end
 
 //@fn vls-core/src/util/velocity.rs :: impl VelocityControl :: with_state props=C12
